@@ -21,6 +21,7 @@ import (
 	"fmt"
 	"reflect"
 	"regexp"
+	"sort"
 	"time"
 	"unicode"
 	"unicode/utf8"
@@ -303,7 +304,15 @@ func normalizeMapInto(cfg *Config, opts *options, from reflect.Value) Error {
 		return raiseKeyInvalidTypeMerge(cfg, from.Type())
 	}
 
-	for _, k := range from.MapKeys() {
+	// Visit the keys in a fixed order: with a path separator, keys can overlap
+	// after expansion ("a" and "a.b"), and the outcome must not depend on the
+	// order the runtime happens to enumerate the map in.
+	keys := from.MapKeys()
+	sort.Slice(keys, func(i, j int) bool {
+		return mapKeyString(keys[i]) < mapKeyString(keys[j])
+	})
+
+	for _, k := range keys {
 		k = chaseValueInterfaces(k)
 		if k.Kind() != reflect.String {
 			return raiseKeyInvalidTypeMerge(cfg, from.Type())
@@ -315,6 +324,16 @@ func normalizeMapInto(cfg *Config, opts *options, from reflect.Value) Error {
 		}
 	}
 	return nil
+}
+
+// mapKeyString renders a map key for ordering purposes only (keys that are no
+// strings are rejected by normalizeMapInto itself).
+func mapKeyString(k reflect.Value) string {
+	k = chaseValueInterfaces(k)
+	if k.Kind() == reflect.String {
+		return k.String()
+	}
+	return fmt.Sprint(k.Interface())
 }
 
 func normalizeStruct(opts *options, from reflect.Value) (*Config, Error) {
